@@ -586,6 +586,12 @@ def directed():
                   call("len", ["comp", "list", call("clamp", call("abs", N("x"))), None, [[["x"], False, N("xs"), []]]])],
           [[">", K(100)]]],
          {"xs": [-20, 4], "x": -3}, {"placement": {"x": "param", "xs": "param"}, "force_env": ["x"]}),
+        # a parameter with the name of a built-in, used inside a comprehension: it is the parameter there too
+        ("builtin-named-param-in-generator", call("all", gen_v(["cmp", N("v"), [["==", N("id")]]], N("xs"))),
+         {"xs": [1, 2], "id": 1}, {"placement": {"id": "param", "xs": "param"}}),
+        ("builtin-named-param-in-list",
+         ["cmp", call("len", ["comp", "list", N("v"), None, [[["v"], False, N("xs"), [["cmp", N("v"), [["!=", N("hash")]]]]]]]), [[">", K(5)]]],
+         {"xs": [1, 2, 1], "hash": 1}, {"placement": {"hash": "param", "xs": "param"}}),
         # an assignment expression that binds a function: left out of the message like any other name of a function
         ("det-named-function", ["bool", "and", [["un", "not", ["cmp", ["named", "tmp", N("cb")], [["is", K(None)]]]],
                                                 ["cmp", N("x"), [[">", K(5)]]]]],
